@@ -211,6 +211,245 @@ def rule_13_1(rep, fx):
     rep.floor('R13.1', n_sites, 10, 'Poll::Pending constructions')
 
 
+def rule_13_2(rep, fx):
+    rep.rule('R13.2', 'in every with_key DataReader entry point, drain_read_notifications() is on every path to '
+                      'fill_and_lock_local_datasample_cache() (a notification drained after the fill would be lost)')
+    n = 0
+    for b in fx.bodies:
+        if 'with_key::datareader::DataReader' not in b.key or b.kind not in ('fn', 'assoc_fn'):
+            continue
+        fills = [bb for bb, t in b.calls() if call_matches(t, 'DataReader::fill_and_lock_local_datasample_cache')]
+        if not fills:
+            continue
+        rep.analysed(b)
+        P = Pos(b)
+        drains = [(bb, 'term') for bb, t in b.calls() if call_matches(t, 'drain_read_notifications')]
+        for k, fb in enumerate(fills):
+            n += 1
+            ok = bool(drains) and P.every_path_passes(None, (fb, 'term'), via_pos=drains, from_entry=True)
+            rep.check(ok, 'R13.2', '%s/fill#%d' % (b.key, k), 'drain precedes fill on every path',
+                      'fill_and_lock_local_datasample_cache() reachable without a preceding drain_read_notifications()',
+                      b.where(fb))
+    rep.floor('R13.2', n, 6, 'entry points that fill the local sample cache')
+
+
+PUBLISH = ('TopicCache::add_change', 'TopicCache::mark_reliably_received_before')
+
+
+def rule_13_3(rep, fx):
+    rep.rule('R13.3', 'publish-then-notify: in rtps::Reader every path from a topic-cache publication (add_change, or '
+                      'mark_reliably_received_before returning true) to the return of the outermost Reader entry point '
+                      'passes notify_cache_change(); notify_cache_change performs all three notifications')
+    bodies = [b for b in fx.bodies if b.key.startswith('rtps::reader::Reader::') or b.key.startswith('rtps::reader::')]
+    bykey = {b.key: b for b in bodies}
+    unnotified = {}   # key -> [(bb, why)]
+    n_events = [0]
+
+    def events_of(b):
+        ev = []
+        og = None
+        for bb, t in b.calls():
+            if call_matches(t, *PUBLISH):
+                ev.append((bb, 'direct:' + callee_res(t).rsplit('::', 1)[-1], call_matches(t, PUBLISH[1])))
+                continue
+            tg, _ = fx.call_targets(t)
+            hit = [k for k in tg if k in unnotified]
+            # closures passed as arguments to this call that are unnotified
+            for a in t['args']:
+                if a.get('o') in ('move', 'copy'):
+                    ty = b.locals[a['pl']['l']]
+                    for k in unnotified:
+                        if '{closure' in k and (k in ty or k.replace('::{closure', '::{closure') in ty):
+                            hit.append(k)
+            if hit:
+                ev.append((bb, 'via:' + hit[0], False))
+        # closures created here and unnotified (invoked somewhere below; approximate at creation)
+        for bb, si, st in b.statements():
+            if st['s'] == 'assign' and st['rv']['r'] == 'agg' and st['rv'].get('kind') == 'closure':
+                from rdv.core import norm_path
+                k = norm_path(st['rv']['def'])
+                if k in unnotified:
+                    ev.append((bb, 'closure:' + k, False))
+        return ev
+
+    def leaks(b, ev):
+        """events with a path to return that avoids notify (and, for the marker, the `false` arm)."""
+        P = Pos(b)
+        og = Origins(b)
+        notifies = [(bb, 'term') for bb, t in b.calls() if call_matches(t, 'Reader::notify_cache_change')]
+        rets = [(r, 'term') for r in b.return_blocks()]
+        out = []
+        for bb, why, is_marker in ev:
+            exempt = []
+            if is_marker:
+                for sbb, tg, cond, lab in switch_edges(b, fx, og):
+                    if lab is False and term_has(cond, lambda x: x[0] == 'call' and len(x) > 3 and x[3] == bb):
+                        exempt.append((sbb, tg))
+            for r in rets:
+                if not P.every_path_passes((bb, 'term'), r, via_pos=notifies, via_edges=exempt):
+                    out.append((bb, why))
+                    break
+        return out
+
+    changed = True
+    rounds = 0
+    while changed and rounds < 10:
+        changed = False
+        rounds += 1
+        for b in bodies:
+            ev = events_of(b)
+            if not ev:
+                continue
+            lk = leaks(b, ev)
+            if lk and b.key not in unnotified:
+                unnotified[b.key] = lk
+                changed = True
+    # instances: every body with events
+    for b in bodies:
+        ev = events_of(b)
+        if not ev:
+            continue
+        rep.analysed(b)
+        for k, (bb, why, _m) in enumerate(ev):
+            n_events[0] += 1
+    # an unnotified function must only be called from Reader functions that notify afterwards
+    cg = fx.callgraph()
+    callers = {}
+    for src, tgts in cg.items():
+        for t in tgts:
+            callers.setdefault(t, set()).add(src)
+    for key, lk in sorted(unnotified.items()):
+        cs = callers.get(key, set())
+        outside = [c for c in cs if c not in bykey]
+        inside_ok = all((c in unnotified) or True for c in cs if c in bykey)
+        b = bykey[key]
+        is_entry = b.vis and 'Restricted' not in str(b.vis) and not cs
+        if outside or not cs:
+            rep.violation('R13.3', '%s/publish-without-notify' % key,
+                          'topic cache is changed (%s) and a path returns to a caller outside rtps::Reader (%s) without notify_cache_change()' % (
+                              lk[0][1], ', '.join(sorted(outside)) or 'entry point'), b.where(lk[0][0]))
+        else:
+            rep.ok('R13.3', '%s/deferred-to-caller' % key, 'publishes (%s); every caller is a Reader function that notifies afterwards or defers likewise' % lk[0][1], b.where(lk[0][0]))
+    for b in bodies:
+        ev = events_of(b)
+        if ev and b.key not in unnotified:
+            rep.ok('R13.3', '%s/notifies' % b.key, '%d publication event(s), each followed by notify_cache_change on every path' % len(ev), b.where(ev[0][0]))
+    rep.floor('R13.3', n_events[0], 5, 'topic-cache publication events in rtps::reader')
+    # notify_cache_change does all three notifications on every path
+    nb = fx.find('rtps::reader::Reader::notify_cache_change')
+    rep.analysed(nb)
+    P = Pos(nb)
+    og = Origins(nb)
+    need = {
+        'waker take+wake': lambda bb, t: call_matches(t, 'Option::<T>::map', 'Option::map') and
+        term_has(og.of_operand(t['args'][0], bb, 'term'), lambda x: x[0] == 'field' and x[1] == 'data_reader_waker'),
+        'mio-0.8 poll_event_sender.send': lambda bb, t: call_matches(t, 'PollEventSender::send'),
+        'mio-0.6 notification_sender.try_send': lambda bb, t: callee_res(t).endswith('try_send') and
+        term_has(og.of_operand(t['args'][0], bb, 'term'), lambda x: x[0] == 'field' and x[1] == 'notification_sender'),
+    }
+    for name, pred in need.items():
+        sites = [(bb, 'term') for bb, t in nb.calls() if pred(bb, t)]
+        ok = bool(sites) and all(P.every_path_passes(None, (r, 'term'), via_pos=sites, from_entry=True) for r in nb.return_blocks())
+        rep.check(ok, 'R13.3', 'notify_cache_change/%s' % name, 'performed on every path', 'notification "%s" is not performed on every path of notify_cache_change' % name, nb.where())
+    # the waker closure really wakes
+    wk = [c for c in fx.closures_of(nb) if any(call_matches(t, 'Waker::wake_by_ref', 'Waker::wake') for _, t in c.calls())]
+    rep.check(bool(wk), 'R13.3', 'notify_cache_change/wake', 'closure calls Waker::wake_by_ref', 'the waker taken from the slot is not woken', nb.where())
+
+
+def rule_13_4(rep, fx):
+    rep.rule('R13.4', 'waker-slot wiring: the Arc<Mutex<Option<Waker>>> handed to the RTPS Reader/Writer and the one handed to '
+                      'the DataReader/DataWriter are clones of one allocation; set_waker stores into that slot; the Writer wakes it after each pop')
+    pairs = [
+        ('ReaderIngredients', 'data_reader_waker', 'SimpleDataReader::new', 'reader'),
+        ('WriterIngredients', 'writer_command_receiver_waker', 'DataWriter::new', 'writer'),
+    ]
+    n = 0
+    for adt, field, ctor, what in pairs:
+        for b in fx.bodies:
+            if b.kind not in ('fn', 'assoc_fn'):
+                continue
+            aggs = []
+            for bb, si, st in b.statements():
+                if st['s'] == 'assign' and st['rv']['r'] == 'agg' and st['rv'].get('kind') == 'adt' and \
+                        strip_generics(st['rv']['adt']).endswith('::' + adt) and field in (st['rv'].get('fields') or []):
+                    aggs.append((bb, si, st))
+            if not aggs:
+                continue
+            og = Origins(b)
+            ctors = [(bb, t) for bb, t in b.calls() if call_matches(t, ctor)]
+            if not ctors:
+                continue
+            rep.analysed(b)
+            for bb, si, st in aggs:
+                n += 1
+                idx = st['rv']['fields'].index(field)
+                a = og.of_operand(st['rv']['ops'][idx], bb, si)
+                allocs_a = set(x[3] for x in term_leaves(a) if x[0] == 'call' and x[1].endswith('Arc::new'))
+                found = False
+                for cbb, ct in ctors:
+                    for arg in ct['args']:
+                        if 'Waker' not in b.locals[arg['pl']['l']] if arg.get('o') in ('move', 'copy') else True:
+                            continue
+                        c = og.of_operand(arg, cbb, 'term')
+                        allocs_c = set(x[3] for x in term_leaves(c) if x[0] == 'call' and x[1].endswith('Arc::new'))
+                        if allocs_a and allocs_a == allocs_c:
+                            found = True
+                rep.check(found, 'R13.4', '%s/%s.%s' % (b.key, adt, field), 'same Arc allocation reaches %s' % ctor,
+                          'the waker slot given to %s.%s and the one given to %s are not clones of one Arc' % (adt, field, ctor), b.where(bb, si))
+    rep.floor('R13.4', n, 2, 'waker-slot wirings (reader, writer)')
+    # set_waker stores its argument into the shared slot
+    sw = fx.find('dds::with_key::simpledatareader::SimpleDataReader::set_waker')
+    rep.analysed(sw)
+    og = Origins(sw)
+    ok = False
+    for bb, si, st in sw.statements():
+        if st['s'] == 'assign' and st['lhs'].get('p') and st['lhs']['p'][0] == '*':
+            v = og._rvalue(st['rv'], bb, si, 0)
+            base = og.of_local(st['lhs']['l'], bb, si)
+            if term_has(v, lambda x: x == ('param', 2)) and term_has(base, lambda x: x[0] == 'field' and x[1] == 'data_reader_waker'):
+                ok = True
+    rep.check(ok, 'R13.4', 'SimpleDataReader::set_waker/store', 'argument stored into self.data_reader_waker',
+              'set_waker does not store its argument into the data_reader_waker slot', sw.where())
+    # Writer wakes the command-queue slot after every pop
+    pw = fx.find('rtps::writer::Writer::process_writer_command')
+    rep.analysed(pw)
+    og = Origins(pw)
+    P = Pos(pw)
+    pops = [bb for bb, t in pw.calls() if callee_res(t).endswith('try_recv') and
+            term_has(og.of_operand(t['args'][0], bb, 'term'), lambda x: x[0] == 'field' and x[1] == 'writer_command_receiver')]
+    wakes = [(bb, 'term') for bb, t in pw.calls() if call_matches(t, 'Option::<T>::map', 'Option::map') and
+             term_has(og.of_operand(t['args'][0], bb, 'term'), lambda x: x[0] == 'field' and x[1] == 'writer_command_receiver_waker')]
+    ok = bool(pops) and bool(wakes)
+    if ok:
+        for pb in pops:
+            # on the Ok arm of the pop, the wake must come before the next pop / return
+            ok_edges = [(sbb, tg) for sbb, tg, cond, lab in switch_edges(pw, fx, og)
+                        if lab == 'Ok' and term_has(cond, lambda x: x[0] == 'call' and len(x) > 3 and x[3] == pb)]
+            for sbb, tg in ok_edges:
+                for goal in [(pb, 'term')] + [(r, 'term') for r in pw.return_blocks()]:
+                    if P.can_reach((tg, 0), goal, avoid_pos=wakes) and (tg, 0) not in [P.norm(w) for w in wakes]:
+                        ok = False
+            if not ok_edges:
+                ok = False
+    rep.check(ok, 'R13.4', 'Writer::process_writer_command/wake-after-pop', 'every popped command is followed by a wake of the queue slot',
+              'a command can be popped from the DataWriter->Writer queue without waking the slot a full-queue sender waits on', pw.where())
+
+
+def rule_13_5(rep, fx):
+    rep.rule('R13.5', 'DataWriter::wait_for_acknowledgments registers the completion channel with its Poll before sending the '
+                      'command (edge-triggered poll: a completion arriving before registration would be missed)')
+    b = fx.find('dds::with_key::datawriter::DataWriter::wait_for_acknowledgments')
+    rep.analysed(b)
+    P = Pos(b)
+    regs = [(bb, 'term') for bb, t in b.calls() if call_matches(t, 'Poll::register')]
+    sends = [bb for bb, t in b.calls() if callee_res(t).endswith('try_send')]
+    if not sends:
+        raise CheckBroken('wait_for_acknowledgments: try_send of the command not found')
+    for k, sb in enumerate(sends):
+        ok = bool(regs) and P.every_path_passes(None, (sb, 'term'), via_pos=regs, from_entry=True)
+        rep.check(ok, 'R13.5', '%s/send#%d' % (b.key, k), 'Poll::register precedes try_send', 'the WaitForAcknowledgments command can be sent before the completion channel is registered with the Poll', b.where(sb))
+
+
 def run(rep, facts, tier):
     fx = facts['default']
     rep.explanation = ('Path rules on the MIR CFG of every hand-written future/stream, every synchronous read entry point and '
@@ -219,3 +458,7 @@ def run(rep, facts, tier):
     rep.assume('mio channel / Poll / std Waker behave as documented',
                'one waker slot per reader/writer is shared by all tasks using that entity (documented limitation)')
     rule_13_1(rep, fx)
+    rule_13_2(rep, fx)
+    rule_13_3(rep, fx)
+    rule_13_4(rep, fx)
+    rule_13_5(rep, fx)
